@@ -64,6 +64,21 @@ func TestReplaySearchGrlLoader(t *testing.T) {
 			t.Fatalf("CONFIRMED: ungrammatical text accepted without error: %s", bad)
 		}
 	}
+	// 1b. boundary numbers in every literal position: a result or an error, never a crash
+	for _, num := range []string{"-2147483648", "2147483647", "-2147483647", "-0x80000000", "0x7fffffff", "-020000000000", "0", "-0",
+		"9223372036854775807", "-9223372036854775808", "9223372036854775808", "0xffffffffffffffff", "1e308", "1e309", "0x1p-1074"} {
+		for _, text := range []string{
+			`rule X "d" salience ` + num + ` { when F.A > 0 then F.A = 1; }`,
+			`rule X "d" { when F.A > ` + num + ` then F.A = 1; }`,
+			`rule X "d" { when F.A > 0 then F.A = ` + num + `; }`,
+			`rule X "d" { when F.L[` + num + `] > 0 then F.A = 1; }`,
+		} {
+			lib := ast.NewKnowledgeLibrary()
+			if _, p := replayC17Build(lib, text); p != nil {
+				t.Fatalf("CONFIRMED: BuildRuleFromResource panicked (%v) on: %s", p, text)
+			}
+		}
+	}
 	// 2. single-token deletions of a valid text: never a crash; whatever is accepted must instantiate
 	toks := strings.Fields(replayC17Good)
 	for i := range toks {
@@ -100,6 +115,49 @@ func TestReplaySearchRejectedHarmless(t *testing.T) {
 		}
 		if _, ierr := lib.NewKnowledgeBaseInstance("K", "1"); ierr != nil {
 			t.Fatalf("CONFIRMED: after the rejected text %q the knowledge base loaded before can no longer be instantiated: %v", bad, fmt.Sprint(ierr))
+		}
+	}
+}
+
+// Snapshot size (C20): the snapshot of a rule's condition - built for every node while the text is loaded - must stay within a
+// modest multiple of the rule text, for every nesting shape the grammar has (selectors, method chains, member chains,
+// parentheses, negations, argument lists), at depths 1..12. A branch that writes a child twice doubles per level: at depth 12
+// the snapshot of an 80-byte text is then 80 KB.
+func TestReplaySearchSnapshotSize(t *testing.T) {
+	shapes := []struct{ name, pre, rep, post string }{
+		{"selector chain", `F.f()`, `[0]`, ` == 1`},
+		{"selector chain on variable", `F.A`, `[0]`, ` == 1`},
+		{"map selector chain", `F.M`, `["k"]`, ` == 1`},
+		{"method chain", `F.f()`, `.g()`, ` == 1`},
+		{"member chain", `F.f()`, `.B`, ` == 1`},
+		{"argument nesting", ``, `F.f(`, `1` + strings.Repeat(")", 0)},
+		{"additions", `F.A`, ` + F.A`, ` == 1`},
+		{"conjunctions", `F.A > 0`, ` && F.A > 0`, ``},
+	}
+	for _, sh := range shapes {
+		for n := 1; n <= 12; n++ {
+			cond := sh.pre + strings.Repeat(sh.rep, n) + sh.post
+			if sh.name == "argument nesting" {
+				cond = strings.Repeat("F.f(", n) + "1" + strings.Repeat(")", n) + " == 1"
+			}
+			for _, wrap := range []string{"%s", "(%s)", "!(%s)"} {
+				text := `rule X "d" { when ` + fmt.Sprintf(wrap, cond) + ` then F.A = 1; }`
+				lib := ast.NewKnowledgeLibrary()
+				err, p := replayC17Build(lib, text)
+				if p != nil {
+					t.Fatalf("CONFIRMED: BuildRuleFromResource panicked (%v) on: %s", p, text)
+				}
+				if err != nil {
+					continue
+				}
+				kb := lib.GetKnowledgeBase("K", "1")
+				for _, re := range kb.RuleEntries {
+					snap := re.WhenScope.Expression.GetSnapshot()
+					if len(snap) > 40*len(text) {
+						t.Fatalf("CONFIRMED: %s of depth %d: the condition's snapshot is %d bytes for a rule text of %d bytes (more than 40x; it doubles per level): %s", sh.name, n, len(snap), len(text), text)
+					}
+				}
+			}
 		}
 	}
 }
